@@ -55,6 +55,14 @@ CLAIMED = {
         note="The property itself (exactly-once and termination for every interleaving and across rounds) quantifies over schedules and is NOT decided: that needs model checking of the protocol, a different technique family. Trusts Boost.MPI request semantics.",
         technique="pairing / dominance / typestate rules over clang AST+CFG with branch-fact dataflow; SPMD arm matching",
         ref="DESIGN.md §3 C16"),
+    "C01": dict(
+        text="Static formula conformance, typed by index space: the Term handed to TermList::add_term in GreensFunctionPart::compute has Residue == <o|c|i><i|c+|o>(w_outer(o)+w_inner(i)) and Pole == E_inner(i)-E_outer(o), "
+             "where o is the common outer index of a row-major iterator over c and a column-major iterator over c+, i their common inner index (sympy normal forms over resolved program entities, both build configurations); "
+             "Term(z) == R/(z-P); GreensFunction::prepare builds each part from the blocks that the two bimap views connect, under the full stripe test; merge walks advance only the smaller side; the fermionic grid is "
+             "i*pi*(2n+1)/beta; TermList merges like poles and drops negligible sums; tolerances <= 1e-8; GFContainer builds element (i,j) from c_i and c+_j and returns it undecorated.",
+        note="The Lehmann representation itself is taken from the documentation, not re-derived; numerical accuracy and Eigen's kernels are trusted. Necessary conditions only.",
+        technique="expression skeleton -> sympy normal form with atoms resolved to program entities (index-space typing) + CFG branch-fact dataflow",
+        ref="DESIGN.md §3 C01"),
 }
 
 NOT_YET = {}
